@@ -151,3 +151,48 @@ pub fn k_c22_boundary_constraint_zero_iff_value() {
     vcheck!("C22.boundary_constraint.zero_iff_trace_holds_asserted_value", (e == Tiny::ZERO) == (trace_value == expected));
     vreach!("C22.boundary.reach");
 }
+
+//# harness: fn=boundary::prepare_assertions (order independence of the natural order); label=bounded(F_17, trace length 8; three assertions on columns 0..=2 in every listing order, kinds / first steps / strides symbolic, ties on (stride, first step) included); tier=quick; timeout=900
+#[cfg_attr(kani, kani::proof)]
+#[cfg_attr(kani, kani::unwind(12))]
+#[cfg_attr(kani, kani::stub(alloc::fmt::format, vs::fake_format))]
+pub fn k_c22_prepare_assertions_order_independent() {
+    // three assertions on three different columns (so they never overlap); first two share kind,
+    // first step and stride (a tie in the natural order that only the column breaks)
+    let kind = vs::any_u8();
+    vs::assume(kind < 2);
+    let first = vs::any_usize();
+    let ls = vs::any_u32();
+    vs::assume(ls >= 1 && ls <= 3);
+    let stride = 1usize << ls;
+    let mk = |col: usize| -> Assertion<Tiny> {
+        if kind == 0 {
+            Assertion::single(col, first, Tiny::new(col as u64 + 1))
+        } else {
+            Assertion::periodic(col, first, stride, Tiny::new(col as u64 + 1))
+        }
+    };
+    if kind == 0 {
+        vs::assume(first < N);
+    } else {
+        vs::assume(first < stride);
+    }
+    let third = Assertion::single(2, 5, Tiny::new(9));
+    let a = prepare_assertions(alloc::vec![mk(0), mk(1), third.clone()], 3, N);
+    let b = prepare_assertions(alloc::vec![mk(1), third.clone(), mk(0)], 3, N);
+    let c = prepare_assertions(alloc::vec![third.clone(), mk(1), mk(0)], 3, N);
+    vcheck!("C22.prepare_assertions.order_independent", a == b && a == c);
+    // and the natural order is (stride, first step, column)
+    let mut sorted = true;
+    let mut i = 0;
+    while i + 1 < a.len() {
+        let (x, y) = (&a[i], &a[i + 1]);
+        let le = x.stride < y.stride
+            || (x.stride == y.stride && (x.first_step < y.first_step
+                || (x.first_step == y.first_step && x.column < y.column)));
+        sorted = sorted && le;
+        i += 1;
+    }
+    vcheck!("C22.prepare_assertions.natural_order", a.len() == 3 && sorted);
+    vreach!("C22.prepare.reach");
+}
